@@ -117,7 +117,7 @@ package parse
 //@   at call (*parse.parser).parsePatchVersion#0 set sidePackage0 = result0.Package
 //@   at call (*parse.parser).parsePatchVersion#1 set sideImports1 = result0.Imports
 //@   at call (*parse.parser).parsePatchVersion#1 set sidePackage1 = result0.Package
-//@   ensures [C10] the-guards-of-a-side-stay-as-written: err == nil ==> patch.Minus.Imports == sideImports0 && patch.Minus.Package == sidePackage0 && patch.Plus.Imports == sideImports1 && patch.Plus.Package == sidePackage1
+//@   ensures [C10,C11] the-guards-of-a-side-stay-as-written: err == nil ==> patch.Minus.Imports == sideImports0 && patch.Minus.Package == sidePackage0 && patch.Plus.Imports == sideImports1 && patch.Plus.Package == sidePackage1
 
 // A change is its name (a label), its description, its metavariable section and its patch, each as written;
 // it is rejected only because its metavariable section or its patch is (C13, C19).
